@@ -100,7 +100,8 @@ def generate(rng, tier):
         b = rand_digits(rng, size, rng.choice(["ones", "rand", "sparse"])) if size else []
         cases.append("h.schoolbook_add %s %s %s" % (D(a), D(b), N(size)))
         cases.append("h.schoolbook_sub %s %s %s" % (D(a), D(b), N(size)))
-    return cases
+    import extra_cases          # API-audit additions (docs/API_COVERAGE.md); produced after the original cases
+    return cases + extra_cases.c01(rng, tier)
 
 def nontrivial(case):
     return nontrivial_default(case)
